@@ -214,7 +214,8 @@ func (c *c13Run) setup(isServer, hasMgr, hasLst bool, epoch uint64) {
 		c.s.manager = &SessionManager{}
 	}
 	if hasLst {
-		c.lst = &Listener{epoch: epoch, hotRestartAckCount: 1000}
+		c.lst = &Listener{epoch: epoch, hotRestartAckCount: 1000, state: hotRestartState}
+		c.s.state = hotRestartState
 		c.s.listener = c.lst
 	}
 	c.win = nil
